@@ -27,7 +27,8 @@ COMPONENTS = {"real": ["clustering/hierarchical.py (Hierarchical, HierarchicalTr
                        "dtw.distance_matrix_func (Python and C) for the real-distance data sets", "scipy.cluster.hierarchy.linkage (as the stated reference of LinkageTree)"],
               "stub": ["client sessions and their interleaving (seeded scheduler)", "environment callbacks order_hook / merge_hook (seeded, checked)",
                        "synthetic dists_fun returning generated matrices with ties, zeros and infinities", "reference model: live-set agglomeration in sim/props/c15.py"]}
-ASSUMPTIONS = ["bounds: mostly 2..8 series per data set (one history in 12: 9..20 series and up to ~30 ops)",
+ASSUMPTIONS = ["one history in three: the caller keeps one collection object for all fits and refills it in place (in half of those all data sets have the same size); a fit that does not ask for the distances is judged against the distances of the collection as it is at that moment",
+               "bounds: mostly 2..8 series per data set (one history in 12: 9..20 series and up to ~30 ops)",
                "the tree-shape oracle is asserted only when every pairwise distance is finite (with an infinite entry the code stops merging by design)",
                "environment hooks are stateless functions of (hook seed, call number within the fit), so that a repeated fit must reproduce the first"]
 
@@ -37,8 +38,12 @@ def gen_history(st):
     ndata = 1 + rng.below(3)
     data = []
     big = rng.below(12) == 0          # swarm sizing
+    # one history in three: the caller keeps ONE collection object for all its fits and refills it in place (streaming use);
+    # in half of those every data set has the same number of series, so that nothing but the numbers changes between fits
+    inplace = rng.below(3) == 0
+    same_n = (9 + rng.below(12) if big else 2 + rng.below(7)) if (inplace and rng.below(2)) else None
     for _ in range(ndata):
-        n = 9 + rng.below(12) if big else 2 + rng.below(7)
+        n = same_n if same_n is not None else (9 + rng.below(12) if big else 2 + rng.below(7))
         kind = rng.choice(["matrix", "matrix", "matrix", "series_py", "series_c"])
         if kind == "matrix":
             grid = rng.below(3)
@@ -89,7 +94,7 @@ def gen_history(st):
             else:
                 programs[s].append({"op": "refit_twice", "model": rng.below(nmodels), "data": rng.below(ndata)})
     ops = sessions.interleave(st("sessions"), programs)
-    return {"setup": {"data": data, "dicts": dicts, "nweights": nweights}, "ops": ops}
+    return {"setup": {"data": data, "dicts": dicts, "nweights": nweights, "inplace": inplace}, "ops": ops}
 
 
 # ---------------------------------------------------------------------------------------------- model
@@ -242,10 +247,24 @@ def _fit_once(mstate, dat, setup, bump):
         series = [[0.0]] * dat["n"]
     else:
         series = [np.array(s, dtype=np.double) for s in dat["series"]]
+    if setup.get("inplace"):
+        # the caller's one collection object, refilled in place: same object (same id), new content
+        buf = _CALLER["buf"]
+        buf[:] = series
+        series = buf
+        bump("fault:collection_object_refilled_in_place")
     mstate["cur"] = dat
     mstate["series"] = series
     res = mstate["obj"].fit(series)
+    if mon.D is None:
+        # The fit did not ask for the distances (a cache inside the model, say).  What the result is judged against are the
+        # distances of the collection AS IT IS NOW, so they are computed here through the same function and options.
+        bump("info:fit_did_not_call_dists_fun")
+        mstate["dists_fun"](series, **mstate["dists_dict"])
     return mon, res
+
+
+_CALLER = {"buf": []}
 
 
 def _make_model(spec, setup, live_dicts, weight_lists, mstates):
@@ -332,6 +351,8 @@ def _make_model(spec, setup, live_dicts, weight_lists, mstates):
         order_hook = lib_order
     state["user_merge_hook"] = merge_hook
     d = live_dicts[spec["dict"]]
+    state["dists_fun"] = dists_fun
+    state["dists_dict"] = d
     if spec["kind"] == "hier":
         state["obj"] = H.Hierarchical(dists_fun, d, max_dist=(math.inf if spec["max_dist"] == "inf" else float(spec["max_dist"])),
                                       merge_hook=merge_hook, order_hook=order_hook, show_progress=False)
@@ -438,6 +459,7 @@ def execute(history):
             v["op"] = opi
             viols.append(v)
 
+    _CALLER["buf"] = []
     maxn = max(d["n"] for d in setup["data"])
     for w in range(setup["nweights"]):
         weight_lists[w] = [1.0] * maxn
